@@ -218,6 +218,51 @@ let icmpv6_parse_op kv =
      else "")
     (show_oe icmpv6_show (icmpv6_parse sok (getbool kv "rx") bs))
 
+(* ---------------- TCP ---------------- *)
+let tcp_proto = z_of_int 6
+let oopt f (x : 'a option) = match x with None -> "-" | Some v -> f v
+let pair_s (a, b) = Printf.sprintf "%s:%s" (sz a) (sz b)
+let get_oz kv k = match get kv k with "-" -> None | v -> Some (zs v)
+let get_pair kv k = match get kv k with
+  | "-" -> None
+  | v -> (match String.split_on_char ':' v with [a; b] -> Some (zs a, zs b) | _ -> failwith "pair")
+let tcp_show r = Printf.sprintf "Ok sp=%s dp=%s ctl=%s seq=%s ack=%s win=%s ws=%s mss=%s sackp=%s s0=%s s1=%s s2=%s ts=%s payload=%s"
+  (sz r.tcp_sport) (sz r.tcp_dport) (sz r.tcp_control) (sz r.tcp_seq) (oopt sz r.tcp_ack) (sz r.tcp_window)
+  (oopt sz r.tcp_wscale) (oopt sz r.tcp_mss) (if r.tcp_sack_permitted then "1" else "0")
+  (oopt pair_s r.tcp_sack0) (oopt pair_s r.tcp_sack1) (oopt pair_s r.tcp_sack2) (oopt pair_s r.tcp_ts)
+  (show_bytes r.tcp_payload)
+let tcp_ctx kv =
+  let src = getb kv "src" and dst = getb kv "dst" in
+  (wb_pseudo_ok src dst tcp_proto, wb_pseudo_fill src dst tcp_proto)
+let tcp_emit_op kv =
+  let (sok, sfill) = tcp_ctx kv in
+  let r = { tcp_sport = geti kv "sp"; tcp_dport = geti kv "dp"; tcp_control = geti kv "ctl"; tcp_seq = geti kv "seq";
+            tcp_ack = get_oz kv "ack"; tcp_window = geti kv "win"; tcp_wscale = get_oz kv "ws"; tcp_mss = get_oz kv "mss";
+            tcp_sack_permitted = getbool kv "sackp"; tcp_sack0 = get_pair kv "s0"; tcp_sack1 = get_pair kv "s1";
+            tcp_sack2 = get_pair kv "s2"; tcp_ts = get_pair kv "ts"; tcp_payload = getb kv "payload" } in
+  let res = tcp_emit sfill (getbool kv "tx") r (getb kv "buf") in
+  Printf.sprintf "ret %s | %s" (ob res)
+    (match res with Ok bs -> show_o tcp_show (tcp_parse sok (getbool kv "rx") bs) | _ -> "-")
+let show_sum (x : tcp_optsum outcome) = show_o (fun o -> Printf.sprintf "%s,%s,%s,%s,%s,%s,%s"
+  (oopt sz o.os_mss) (oopt sz o.os_ws) (if o.os_sack_permitted then "1" else "0")
+  (oopt pair_s o.os_sack0) (oopt pair_s o.os_sack1) (oopt pair_s o.os_sack2) (oopt pair_s o.os_ts)) x
+let tcp_parse_op kv =
+  let (sok, _) = tcp_ctx kv in
+  let bs = getb kv "bytes" in
+  let c = tcp_check_len bs in
+  Printf.sprintf "chk %s%s parse %s" (chk c)
+    (if is_ok c then Printf.sprintf " acc sp=%s dp=%s seq=%s ack=%s fl=%s%s%s%s%s%s%s%s%s hlen=%s win=%s ck=%s urg=%s opts=%s payload=%s seglen=%s sum=%s sackp=%s sackr=%s vck=%s"
+       (oz (tcp_src_port bs)) (oz (tcp_dst_port bs)) (oz (tcp_seq_number bs)) (oz (tcp_ack_number bs))
+       (obool (tcp_fin bs)) (obool (tcp_syn bs)) (obool (tcp_rst bs)) (obool (tcp_psh bs)) (obool (tcp_ack_ bs))
+       (obool (tcp_urg bs)) (obool (tcp_ece bs)) (obool (tcp_cwr bs)) (obool (tcp_ns bs))
+       (oz (tcp_header_len_ bs)) (oz (tcp_window_len bs)) (oz (tcp_checksum bs)) (oz (tcp_urgent_at bs))
+       (ob (tcp_options bs)) (ob (tcp_payload_ bs)) (oz (tcp_segment_len bs))
+       (show_sum (tcp_options_summary bs)) (obool (tcp_selective_ack_permitted bs))
+       (show_o (fun ((a, b), c) -> Printf.sprintf "%s,%s,%s" (oopt pair_s a) (oopt pair_s b) (oopt pair_s c)) (tcp_selective_ack_ranges bs))
+       (if tcp_verify_checksum sok bs then "1" else "0")
+     else "")
+    (show_o tcp_show (tcp_parse sok (getbool kv "rx") bs))
+
 (* ---------------- dispatch ---------------- *)
 let dispatch : (string * ((string * string) list -> string) * ((string * string) list -> string)) list = [
   ("eth", eth_emit_op, eth_parse_op);
@@ -227,6 +272,7 @@ let dispatch : (string * ((string * string) list -> string) * ((string * string)
   ("ipv6", ipv6_emit_op, ipv6_parse_op);
   ("icmpv4", icmpv4_emit_op, icmpv4_parse_op);
   ("icmpv6", icmpv6_emit_op, icmpv6_parse_op);
+  ("tcp", tcp_emit_op, tcp_parse_op);
 ]
 
 let () =
